@@ -11,6 +11,27 @@ from .vals import *  # noqa: F401,F403
 from .vals import SEQ, MapSeqP, SetP, VMapSlot, intern_atom
 
 CHR_ATOM = z3.Function("ChrAtom", z3.IntSort(), z3.IntSort())
+
+
+def _space_ranges():
+    out, start, prev = [], None, None
+    for c in range(0x110000):
+        if chr(c).isspace():
+            if start is None:
+                start = c
+            elif c != prev + 1:
+                out.append((start, prev))
+                start = c
+            prev = c
+    out.append((start, prev))
+    return out
+
+
+PY_SPACE = _space_ranges()  # the characters str.strip() / str.isspace() treat as whitespace, from this interpreter's tables
+
+
+def py_isspace(c):
+    return z3.Or([c == a if a == b else z3.And(c >= a, c <= b) for a, b in PY_SPACE])
 from .ev_expr import UNBOUND, BoolishV, StrListP, MAXCP
 from .ev_stmt import assigned_names, attr_path
 from .schema import SCHEMA, CLASS_MODULE, class_of_annotation
@@ -351,6 +372,10 @@ class CallMixin:
             if isinstance(dflt, VList) and isinstance(self.get_payload(dflt.ref), PyListP) and not self.get_payload(dflt.ref).items:
                 return VSeqZ(z3.If(z3.Select(p.keys, k), z3.Select(p.vals, k), z3.Empty(SEQ)))
             raise Unsupported("dict.get with a non-empty default")
+        if isinstance(recv, VDict) and isinstance(self.get_payload(recv.ref), IntMapP) and name == "get" and len(args) == 2:
+            p = self.get_payload(recv.ref)
+            k = self.as_int(args[0])
+            return VInt(z3.If(z3.Select(p.keys, k), z3.Select(p.vals, k), self.as_int(args[1])))
         if isinstance(recv, VDict):
             p = self.get_payload(recv.ref)
             if name == "get" and isinstance(args[0], VStr) and args[0].kind == "lit":
@@ -445,6 +470,39 @@ class CallMixin:
         p.len = p.len + 1
 
     def str_method(self, s, name, args, node, fr):
+        one = lambda a: isinstance(a, VStr) and a.kind == "lit" and len(a.a) == 1  # noqa: E731
+        if name == "replace" and len(args) == 2 and one(args[0]) and one(args[1]):
+            # character-wise substitution: same length, every occurrence of the first character becomes the second
+            f, t = ord(args[0].a), ord(args[1].a)
+            return VStr("var", (lambda i, _b=s: z3.If(_b.char(i) == f, z3.IntVal(t), _b.char(i))), s.length(), f"map({s!r},{f},{t})")
+        if name in ("strip", "lstrip", "rstrip") and (not args or one(args[0])):
+            # result opaque except for what the code base asks of it: its length is at most the original's and it is
+            # empty exactly when every character is in the stripped class (Python whitespace for the no-argument form)
+            r = self.apply_strfun(f"str.{name}", [VAtom(z3.IntVal(intern_atom(repr(s)))), *[a for a in args if hasattr(a, "t")]] + ([VAtom(z3.IntVal(intern_atom(args[0].a)))] if args else []))
+            key = ("stripax", name, repr(s), args[0].a if args else None)
+            if key not in self.unfolded:
+                self.unfolded.add(key)
+                pred = (lambda c: c == ord(args[0].a)) if args else py_isspace
+                w, k = fresh("strip_w"), fresh("k")
+                n = s.length()
+                self.assume_axiom(r.b <= n)
+                self.assume_axiom(z3.Implies(r.b > 0, z3.And(0 <= w, w < n, z3.Not(pred(s.char(w))))))
+                self.assume_axiom(z3.Implies(r.b <= 0, z3.ForAll([k], z3.Implies(z3.And(0 <= k, k < n), pred(s.char(k))))))
+            return r
+        if name == "endswith" and isinstance(args[0], VStr) and args[0].kind == "lit":
+            lit = args[0].a
+            n = s.length()
+            return VBool(z3.And(n >= len(lit), *[s.char(n - len(lit) + j) == ord(ch) for j, ch in enumerate(lit)]))
+        if name == "index" and args and one(args[0]) and len(args) <= 2:
+            c = ord(args[0].a)
+            n = s.length()
+            st = self.as_int(args[1]) if len(args) == 2 else z3.IntVal(0)
+            st = z3.If(st < 0, z3.If(st + n < 0, z3.IntVal(0), st + n), z3.If(st > n, n, st))
+            found, r, k = fresh("found", "bool"), fresh("idx"), fresh("k")
+            self.assume_axiom(z3.Implies(found, z3.And(st <= r, r < n, s.char(r) == c, z3.ForAll([k], z3.Implies(z3.And(st <= k, k < r), s.char(k) != c)))))
+            self.assume_axiom(z3.Implies(z3.Not(found), z3.ForAll([k], z3.Implies(z3.And(st <= k, k < n), s.char(k) != c))))
+            self.safe_or_raise(found, "ValueError", node, fr, "call")
+            return VInt(r)
         if name in ("strip", "lstrip", "rstrip", "lower", "upper", "replace"):
             r = self.apply_strfun(f"str.{name}", [VAtom(z3.IntVal(intern_atom(repr(s)))), *[a for a in args if hasattr(a, "t")]])
             if name in ("strip", "lstrip", "rstrip"):
